@@ -155,6 +155,13 @@ def scenarios(chk):
                     fl = [(names[0], "ok", b"aaa"), (names[1], "ok", b"bbb")]
                     fl.insert(pos, (bad, "ok", b"evil"))
                     out.append((kind, op, ctl, "ok", fl))
+            # the control file lists ITSELF (first, in the middle, last; all files present, or a later one missing): it is not one
+            # of its own files - the operation is refused before anything is touched
+            for pos in (0, 1, 2):
+                for st in ("ok", "missing"):
+                    fl = [(names[0], "ok", b"aaa"), (names[1], st, b"bbb")]
+                    fl.insert(pos, (ctl, "ok", b"self"))
+                    out.append((kind, op, ctl, "ok", fl))
             # names listed ONLY in the Checksums-Sha1 / Checksums-Sha256 sections (a control file lists names there too):
             # whatever they are, nothing outside the two directories may be read, overwritten, moved or deleted
             for bad in (b"../outside/canary", b"../rootcanary", b"a/../../outside/canary", b"sub/inner"):
